@@ -386,6 +386,7 @@ def decCtor : Val → R Dec
   | .bool b => .ok (Dec.ofInt (boolInt b))
   | .str s => decOfStr s
   | .tuple _ => U "Decimal(tuple)"
+  | .ref _ => U "Decimal(list)"
   | .opaque _ => U "Decimal(opaque)"
   | _ => .error .typeError
 
@@ -398,6 +399,10 @@ def decPow (x y : Dec) : R Val :=
     if n < 0 then U "pow-neg"
     else if n > 200 then U "pow-big"
     else if x.coeff = 0 ∧ n = 0 then .error (.decimal .invalidOperation)
+    else if x.coeff = 0 then
+      -- 0 ** n (n > 0): a zero with exponent 0, negative iff the base is -0 and n is odd
+      if y.exp ≠ 0 ∨ y.neg then U "pow-exp-form"
+      else .ok (.dec { neg := x.neg && n % 2 = 1, coeff := 0, exp := 0 } false)
     else
       let c := x.coeff ^ n.toNat
       if Dec.ndigits c > Dec.prec then U "pow-inexact"
